@@ -268,6 +268,8 @@ def run(chk):
     chk.sample({"case": cases[0], "impl": impl[0]})
     chk.compare("get_subgraphs-vs-model", sub_cases, sub_impl, run_driver("Dr", sub_lines))
     chk.sample({"get_subgraphs": sub_lines[0].split("\t")[1:], "impl": sub_impl[0]})
+    # the default graph (no components given), with cluster-group components around, in fresh interpreters
+    default_graph_cases(chk, 6 if quick else 60)
     # hash seeds: the same worlds regenerated and evaluated in child interpreters
     n_child = min(n_worlds, 120 if quick else 1500)
     outs = {}
@@ -300,12 +302,103 @@ def child(seed, n, quick):
     sys.stdout.write(json.dumps(out))
 
 
+def default_child(seed, idx):
+    """
+    In a FRESH interpreter: one small world in which some components belong to the cluster group, evaluated over the
+    DEFAULT graph (no components given: what insights.collect / `insights run` without a plugin selection do) by every
+    entry point.  Prints {schedule: canonical result restricted to the world's components}.
+    """
+    import random
+    rng = random.Random("C04-default/%s/%d" % (seed, idx))
+    n = rng.randint(4, 10)
+    spec = W.gen_spec(rng, n, fault_rate=0.2, with_points=False, islands=rng.choice([1, 2, 3]))
+    for s_ in spec:
+        s_.pop("reset_enabled", None)
+        if s_["kind"] in ("plain", "plugin", "rule") and rng.random() < 0.3:
+            s_["cluster"] = True
+    seeds = W.gen_seeds(rng, spec, rate=0.08)
+    ss = rng.random() < 0.5
+    world = W.World(spec, "c04default_%d_%d" % (seed, idx))
+    out = {"spec": W.strip(spec), "seeds": seeds, "store_skips": ss, "results": {}}
+
+    def go(name, fn):
+        b = world.new_broker(seeds, ss)
+        W.instrument(world, b)
+        try:
+            fn(b)
+            out["results"][name] = plain(W.canon_broker(world, b))
+        except Exception as ex:
+            out["results"][name] = "raised %r" % (ex,)
+    go("run()", lambda b: dr.run(broker=b))
+    go("run(GROUPS.single)", lambda b: dr.run(dr.GROUPS.single, broker=b))
+    go("run_incremental()", lambda b: list(dr.run_incremental(broker=b)))
+    go("run_all()", lambda b: dr.run_all(broker=b))
+    go("run_all(pool)", lambda b: dr.run_all(broker=b, pool=DeferPool(random.Random(idx))))
+    out["cluster"] = [i for i, s_ in enumerate(spec) if s_.get("cluster")]
+    sys.stdout.write(json.dumps(out))
+
+
+def default_graph_cases(chk, n):
+    """run default_child for n worlds in child interpreters; every entry point must agree with dr.run() on the default graph
+    and no cluster-group component may be evaluated by any of them"""
+    procs = []
+    for idx in range(n):
+        env = dict(os.environ, VERIF_REPO=REPO)
+        procs.append((idx, subprocess.Popen([sys.executable, "-c",
+                      "import sys; sys.path.insert(0, %r); sys.path.insert(0, %r); sys.dont_write_bytecode=True; "
+                      "from harness import c04; c04.default_child(%d, %d)" % (REPO, VERIF, chk.seed, idx)],
+                      env=env, stdout=subprocess.PIPE, stderr=subprocess.PIPE)))
+    for idx, p in procs:
+        o, e = p.communicate(timeout=600)
+        if p.returncode != 0:
+            raise RuntimeError("default-graph child failed: " + e.decode()[-2000:])
+        d = json.loads(o.decode())
+        case = {"op": "default-graph", "verif_seed": chk.seed, "index": idx, "spec": d["spec"], "seeds": d["seeds"], "store_skips": d["store_skips"]}
+        for why in default_graph_oracle(d):
+            chk.failure(why, case)
+        chk.count("default-graph-world")
+        chk.count("default-graph:cluster-components:%d" % min(len(d["cluster"]), 3))
+
+
+def default_graph_oracle(d):
+    res = d["results"]
+    ref = res["run()"]
+    out = []
+    for name, text in res.items():
+        if text != ref:
+            out.append("default graph: %s differs from dr.run():\n  run(): %s\n  %s: %s" % (name, ref, name, text))
+    for name, text in res.items():
+        if text.startswith("raised"):
+            continue
+        inst = W.split_text(text.replace("inst=", "inst=", 1))["inst"] if text.startswith("inst=") else ""
+        got = set(int(x.split(":")[0]) for x in inst.split() if ":" in x)
+        seeded = set(c for c, _ in d["seeds"])
+        bad = sorted((got - seeded) & set(d["cluster"]))
+        if bad:
+            out.append("default graph: %s evaluated the cluster-group component(s) %s (the default graph is the single group)" % (name, bad))
+    return out
+
+
 def oracle_single(rep, world, r, case):
     pass
 
 
 def _replay_once(data):
     case = data["case"]
+    if case.get("op") == "default-graph":
+        env = dict(os.environ, VERIF_REPO=REPO)
+        p = subprocess.run([sys.executable, "-c",
+                            "import sys; sys.path.insert(0, %r); sys.path.insert(0, %r); sys.dont_write_bytecode=True; "
+                            "from harness import c04; c04.default_child(%d, %d)" % (REPO, VERIF, case["verif_seed"], case["index"])],
+                           env=env, stdout=subprocess.PIPE, stderr=subprocess.PIPE, timeout=600)
+        d = json.loads(p.stdout.decode())
+        for k, v in d["results"].items():
+            print("%s: %s" % (k, v))
+        whys = default_graph_oracle(d)
+        for w in whys:
+            print("oracle:", w)
+        print("property violated on this input" if whys else "property holds on this input")
+        return 1 if whys else 0
     if "world_index" in case:
         print("hash-seed divergence: re-run `VERIF_SEED=%s ./check C04` (world %s, PYTHONHASHSEED=%s)" % (case["verif_seed"], case["world_index"], case["hashseed"]))
         return 1
